@@ -40,9 +40,11 @@ var runners = map[string]func(Config){
 	"C10": runC10,
 	"C13": runC13,
 	"C15": runC15,
+	"C16": runC16,
 	"C17": runC17,
 	"C18": runC18,
 	"C19": runC19,
+	"C20": runC20,
 }
 
 func main() {
